@@ -48,6 +48,53 @@ pub fn c15(ctx: &Ctx, rep: &mut Report) {
     rep.sample("miri", json!({"decodes": n}));
 }
 
+/// Hostile inputs through the real Ristretto backend under the interpreter: decoding, point decompression of
+/// non-canonical / identity / undecodable encodings, and one full verification of a well-shaped random proof
+pub fn c16(ctx: &Ctx, rep: &mut Report) {
+    use crate::onris::*;
+    use tari_bulletproofs_plus::{range_proof::RangeProof, range_statement::RangeStatement};
+    let mut rng = ctx.rng("c16-miri", 0);
+    let prm = params_uncached(1, 2, 2);
+    let cs: Vec<P> = (0..2).map(|_| <P as crate::gx::Gx>::random_point(&mut rng)).collect();
+    let st = RangeStatement::init(prm, cs, vec![None, Some(1)], None).expect("statement");
+    let t = Context::plain().transcript();
+    let mut n = 0u64;
+    for variant in 0..6usize {
+        let mut parts = Parts {
+            ext_byte: 2,
+            d1: vec![rand_scalar(&mut rng).to_bytes(), rand_scalar(&mut rng).to_bytes()],
+            a: enc(&<P as crate::gx::Gx>::random_point(&mut rng)),
+            a1: enc(&<P as crate::gx::Gx>::random_point(&mut rng)),
+            b: enc(&<P as crate::gx::Gx>::random_point(&mut rng)),
+            r1: rand_scalar(&mut rng).to_bytes(),
+            s1: [0u8; 32],
+            lr: vec![(enc(&<P as crate::gx::Gx>::random_point(&mut rng)), enc(&<P as crate::gx::Gx>::random_point(&mut rng)))],
+        };
+        match variant {
+            0 => {},
+            1 => parts.a = [0u8; 32],
+            2 => parts.lr[0].1 = [0xFF; 32],
+            3 => parts.b[31] |= 0x80,
+            4 => parts.lr.push(parts.lr[0]),
+            _ => parts.ext_byte = 3,
+        }
+        let bytes = parts.to_bytes();
+        let r = no_panic(|| {
+            if let Ok(p) = Proof::from_bytes(&bytes) {
+                let _ = RangeProof::verify_batch(&mut [t.clone()], std::slice::from_ref(&st), std::slice::from_ref(&p), [VerifyAction::VerifyOnly, VerifyAction::RecoverAndVerify][variant % 2]);
+            }
+        });
+        n += 1;
+        if let Err(p) = r {
+            rep.violation("C16 panic [miri corpus]", &format!("panic on hostile variant {variant}: {p}"), json!({"tier": "thorough", "seed": ctx.seed, "leg": "miri", "case": variant}));
+        }
+    }
+    rep.evaluations += n;
+    rep.distinct_extra += n;
+    rep.count("miri_hostile_cases", n);
+    rep.sample("miri", json!({"hostile_variants": ["well-shaped random", "identity A", "undecodable R", "non-canonical B", "surplus round", "wrong degree byte"]}));
+}
+
 pub fn c18(ctx: &Ctx, rep: &mut Report) {
     // (a) racing first use of the cached blinding generators
     let t = 3;
